@@ -1,5 +1,5 @@
 (* C18 proofs about the hand model (Model.v). *)
-From Coq Require Import ZArith NArith List Bool Ascii String Lia.
+From Coq Require Import ZArith NArith List Bool Ascii String Lia ZifyBool.
 Require Import SkV.Lib.Base SkV.C18.Model.
 Import ListNotations.
 Open Scope string_scope.
@@ -604,4 +604,419 @@ Proof.
   2:{ unfold line. rewrite has_lower by apply eqb_lower_qmark. apply has_strip. pose proof Hr as [_ HF].
       destruct (tok_ok_forall toks HF) as (_ & _ & Hqm & _ & _). apply row_has; [reflexivity|exact Hqm]. }
   unfold line. rewrite case_core_unlabelled by assumption. reflexivity.
+Qed.
+
+(* ------------------------------------------------------------------ running over lines *)
+
+Lemma run_app {S} (step : S -> str -> res S) s a b :
+  run step s (a ++ b) = match run step s a with Ok s' => run step s' b | Err => Err end.
+Proof.
+  revert s. induction a as [|l t IH]; intro s; [reflexivity|].
+  cbn [app run]. destruct (step s l); [apply IH|reflexivity].
+Qed.
+
+Definition row1 (t : series) : row := [map fnorm t].
+
+Lemma run_data_labelled cll : forall panel vals nd rows cvs,
+  Forall row_ok panel -> Forall lab_ok vals -> List.length vals = List.length panel ->
+  nd = None \/ nd = Some 1 ->
+  run ts_step (dstate true cll nd rows cvs) (data_lines true panel vals) =
+  Ok (dstate true cll (match panel with [] => nd | _ => Some 1 end)
+             (rev (map row1 panel) ++ rows) (rev (map lower vals) ++ cvs)).
+Proof.
+  induction panel as [|r p IH]; intros vals nd rows cvs Hp Hv Hl Hnd.
+  - destruct vals; [reflexivity|discriminate].
+  - destruct vals as [|v vs]; [discriminate|].
+    inversion Hp as [|? ? Hr Hp']; subst. inversion Hv as [|? ? Hv1 Hv']; subst.
+    cbn [data_lines run]. rewrite step_case_labelled by assumption.
+    rewrite IH; try assumption; [|cbn in Hl; lia|right; reflexivity].
+    cbn [map rev]. rewrite <- !app_assoc. cbn [app]. destruct p; reflexivity.
+Qed.
+
+Lemma run_data_unlabelled cll : forall panel nd rows cvs,
+  Forall row_ok panel -> nd = None \/ nd = Some 1 ->
+  run ts_step (dstate false cll nd rows cvs) (data_lines true panel []) =
+  Ok (dstate false cll (match panel with [] => nd | _ => Some 1 end)
+             (rev (map row1 panel) ++ rows) cvs).
+Proof.
+  induction panel as [|r p IH]; intros nd rows cvs Hp Hnd; [reflexivity|].
+  inversion Hp as [|? ? Hr Hp']; subst.
+  cbn [data_lines run]. rewrite step_case_unlabelled by assumption.
+  rewrite IH; try assumption; [|right; reflexivity].
+  cbn [map rev]. rewrite <- !app_assoc. cbn [app]. destruct p; reflexivity.
+Qed.
+
+(* ------------------------------------------------------------------ the header *)
+
+Lemma step_hash s r : data_started s = false -> ts_step s ("#"%char :: r) = Ok s.
+Proof.
+  intro H.
+  rewrite (ts_step_not_tag s _ "#"%char (lower (rstrip r))); [rewrite H; reflexivity| |reflexivity].
+  unfold strip. cbn [lstrip]. change (is_space "#"%char) with false. cbn iota.
+  rewrite rstrip_nonspace by reflexivity. reflexivity.
+Qed.
+
+Definition comment_ok (c : list str) : Prop :=
+  match c with [] => True | w :: _ => exists r, w = "#"%char :: r end.
+
+Lemma run_comment s c : comment_ok c -> data_started s = false ->
+  run ts_step s (comment_lines c) = Ok s.
+Proof.
+  intros Hc Hs. destruct c as [|w t]; [reflexivity|]. destruct Hc as [r ->].
+  cbn [comment_lines run]. rewrite step_hash by exact Hs.
+  induction t as [|x t IH]; [reflexivity|]. cbn [map run].
+  change (L "# " ++ x) with ("#"%char :: " "%char :: x). rewrite step_hash by exact Hs. exact IH.
+Qed.
+
+Lemma split_on_nonnil c l : split_on c l <> [].
+Proof.
+  destruct l as [|x t]; cbn [split_on]; [congruence|].
+  destruct (Ascii.eqb x c); [congruence|]. destruct (split_on c t); congruence.
+Qed.
+Lemma len_cons_ne1 {A} (a : A) l : l <> [] -> (len (a :: l) =? 1) = false.
+Proof. destruct l; [congruence|]. intros _. unfold len. cbn [List.length]. lia. Qed.
+Lemma len_cons2_ne {A} (a b : A) l : l <> [] ->
+  (len (a :: b :: l) =? 1) = false /\ (len (a :: b :: l) =? 2) = false.
+Proof. destruct l; [congruence|]. intros _. unfold len. cbn [List.length]. lia. Qed.
+
+Definition name_ok (n : str) : Prop := n <> [] /\ nows n = true.
+
+Lemma norm_lit_tail (lit tail : str) c t :
+  lit = c :: t -> is_space c = false -> blank tail = false -> rstrip tail = tail ->
+  lower (strip (lit ++ tail)) = lower lit ++ lower tail.
+Proof.
+  intros -> Hc Hb Hr. unfold strip. cbn [app lstrip]. rewrite Hc.
+  change (c :: t ++ tail) with ((c :: t) ++ tail). rewrite rstrip_app by exact Hb.
+  rewrite Hr. apply lower_app.
+Qed.
+
+Lemma step_problemname s name : name_ok name -> data_started s = false ->
+  ts_step s (L "@problemName " ++ name) = Ok (set_pn s).
+Proof.
+  intros [Hne Hnw] Hs.
+  assert (Hn : lower (strip (L "@problemName " ++ name)) = tag_problemname ++ ch_space :: lower name).
+  { erewrite norm_lit_tail; [reflexivity|reflexivity|reflexivity| |apply rstrip_nows; exact Hnw].
+    apply nows_nonblank; assumption. }
+  unfold ts_step. rewrite Hn.
+  destruct (tag_problemname ++ ch_space :: lower name) as [|a b] eqn:E; [discriminate E|]. rewrite <- E.
+  assert (Hsw : startswith tag_problemname (tag_problemname ++ ch_space :: lower name) = true) by reflexivity.
+  rewrite Hsw, Hs. rewrite split_on_app by reflexivity.
+  rewrite len_cons_ne1 by apply split_on_nonnil. reflexivity.
+Qed.
+
+Lemma step_timestamps_false s : data_started s = false ->
+  ts_step s (L "@timeStamps false") = Ok (set_ts false s).
+Proof. intro H. unfold ts_step. rewrite H. reflexivity. Qed.
+Lemma step_univariate_true s : data_started s = false ->
+  ts_step s (L "@univariate true") = Ok (set_uv s).
+Proof. intro H. unfold ts_step. rewrite H. reflexivity. Qed.
+Lemma step_equallength_true s : data_started s = false ->
+  ts_step s (L "@equalLength true") = Ok s.
+Proof. intro H. unfold ts_step. rewrite H. reflexivity. Qed.
+Lemma step_classlabel_false s : data_started s = false ->
+  ts_step s (L "@classLabel false") = Ok (set_cl false [] s).
+Proof. intro H. unfold ts_step. rewrite H. reflexivity. Qed.
+Lemma step_data s : data_started s = false -> ts_step s (L "@data") = Ok (set_data s).
+Proof. intro H. unfold ts_step. rewrite H. reflexivity. Qed.
+
+(* str(n) consists of digits (and a sign) *)
+Lemma digit_nonspace d : 0 <= d < 10 -> is_space (digit_c d) = false.
+Proof.
+  intro H. assert (C : d = 0 \/ d = 1 \/ d = 2 \/ d = 3 \/ d = 4 \/ d = 5 \/ d = 6 \/ d = 7 \/ d = 8 \/ d = 9)
+    by lia.
+  repeat (destruct C as [-> | C]; [reflexivity|]). subst. reflexivity.
+Qed.
+Lemma dec_aux_nows fuel : forall n acc, nows acc = true -> nows (dec_aux fuel n acc) = true.
+Proof.
+  induction fuel as [|f IH]; intros n acc H; [exact H|]. cbn [dec_aux].
+  assert (Hacc : nows (digit_c (n mod 10) :: acc) = true).
+  { cbn [nows forallb]. rewrite digit_nonspace by (apply Z.mod_pos_bound; lia). exact H. }
+  destruct (n / 10 =? 0); [exact Hacc|apply IH; exact Hacc].
+Qed.
+Lemma dec_aux_nonnil fuel : forall n acc, acc <> [] -> dec_aux fuel n acc <> [].
+Proof.
+  induction fuel as [|f IH]; intros n acc H; [exact H|]. cbn [dec_aux].
+  destruct (n / 10 =? 0); [congruence|apply IH; congruence].
+Qed.
+Lemma dec_ok n : nows (dec n) = true /\ dec n <> [].
+Proof.
+  unfold dec. destruct (n <? 0).
+  - split; [|congruence]. cbn [nows forallb]. change (negb (is_space "-"%char)) with true.
+    apply dec_aux_nows. reflexivity.
+  - split; [apply dec_aux_nows; reflexivity|].
+    cbn [dec_aux]. destruct (n / 10 =? 0); [congruence|apply dec_aux_nonnil; congruence].
+Qed.
+
+Lemma step_serieslength s n : data_started s = false ->
+  ts_step s (L "@seriesLength " ++ dec n) = Ok s.
+Proof.
+  intro Hs. destruct (dec_ok n) as [Hnw Hne].
+  assert (Hn : lower (strip (L "@seriesLength " ++ dec n)) = L "@serieslength " ++ lower (dec n)).
+  { erewrite norm_lit_tail; [reflexivity|reflexivity|reflexivity| |apply rstrip_nows; exact Hnw].
+    apply nows_nonblank; assumption. }
+  unfold ts_step. rewrite Hn, Hs. reflexivity.
+Qed.
+
+Lemma nows_has_space l : nows l = true -> has ch_space l = false.
+Proof.
+  induction l as [|c t IH]; [reflexivity|]. intro H.
+  change (nows (c :: t)) with (negb (is_space c) && nows t) in H.
+  change (has ch_space (c :: t)) with (Ascii.eqb c ch_space || has ch_space t).
+  apply andb_true_iff in H. destruct H as [Hc Ht]. rewrite (IH Ht), orb_false_r.
+  destruct (Ascii.eqb_spec c ch_space) as [->|]; [discriminate Hc|reflexivity].
+Qed.
+
+Lemma labels_tail labs : labs <> [] -> Forall lab_ok labs ->
+  blank (join ch_space labs) = false /\ rstrip (join ch_space labs) = join ch_space labs.
+Proof.
+  intros Hne HF.
+  assert (Hlast : lab_ok (last labs [])).
+  { rewrite Forall_forall in HF. apply HF. apply last_in. exact Hne. }
+  destruct Hlast as (Hl1 & Hl2 & _).
+  assert (Hb : blank (last labs []) = false) by (apply nows_nonblank; assumption).
+  split; [apply blank_join_last; assumption|].
+  rewrite rstrip_join by assumption. f_equal.
+  clear Hne Hl1 Hl2 Hb. induction HF as [|x t Hx Ht IH]; [reflexivity|].
+  destruct t as [|y t'].
+  - cbn. f_equal. apply rstrip_nows. apply Hx.
+  - change (map_last rstrip (x :: y :: t')) with (x :: map_last rstrip (y :: t')). f_equal. exact IH.
+Qed.
+
+Lemma step_classlabel_true s labs : labs <> [] -> Forall lab_ok labs -> data_started s = false ->
+  exists cll, ts_step s (L "@classLabel true " ++ join ch_space labs) = Ok (set_cl true cll s).
+Proof.
+  intros Hne HF Hs. destruct (labels_tail labs Hne HF) as [Hb Hr].
+  set (rest := lower (join ch_space labs)).
+  assert (Hn : lower (strip (L "@classLabel true " ++ join ch_space labs)) =
+               tag_classlabel ++ ch_space :: (L "true" ++ ch_space :: rest)).
+  { erewrite norm_lit_tail; [reflexivity|reflexivity|reflexivity|exact Hb|exact Hr]. }
+  unfold ts_step. rewrite Hn.
+  destruct (tag_classlabel ++ ch_space :: L "true" ++ ch_space :: rest) as [|a b] eqn:E; [discriminate E|].
+  rewrite <- E.
+  assert (H1 : startswith tag_problemname (tag_classlabel ++ ch_space :: L "true" ++ ch_space :: rest) = false)
+    by reflexivity.
+  assert (H2 : startswith tag_timestamps (tag_classlabel ++ ch_space :: L "true" ++ ch_space :: rest) = false)
+    by reflexivity.
+  assert (H3 : startswith tag_univariate (tag_classlabel ++ ch_space :: L "true" ++ ch_space :: rest) = false)
+    by reflexivity.
+  assert (H4 : startswith tag_classlabel (tag_classlabel ++ ch_space :: L "true" ++ ch_space :: rest) = true)
+    by reflexivity.
+  rewrite H1, H2, H3, H4, Hs.
+  rewrite split_on_app by reflexivity. rewrite split_on_app by reflexivity.
+  destruct (len_cons2_ne tag_classlabel (L "true") (split_on ch_space rest) (split_on_nonnil _ _)) as [L1 L2].
+  rewrite L1, L2. cbn [nth_str nth]. change (bool_token (L "true")) with (Some true). cbn iota.
+  cbn [andb]. eexists. reflexivity.
+Qed.
+
+Definition opts_ok (o : wopts) : Prop :=
+  name_ok (o_name o) /\ o_timestamp o = false /\ o_univariate o = true /\
+  Forall lab_ok (o_labels o) /\
+  (o_equal_length o = true -> o_series_length o <> -1) /\
+  comment_ok (o_comment o).
+
+Lemma header_run o : opts_ok o -> exists cll,
+  run ts_step init_state (render_header o writer_header) =
+  Ok (dstate (negb (is_nil (o_labels o))) cll None [] []).
+Proof.
+  intros (Hname & Hts & Huv & Hlabs & _ & _).
+  unfold render_header, writer_header.
+  cbn [flat_map fst snd guard_holds map render_part render_hole List.concat app].
+  rewrite Hts, Huv. cbn [py_bool]. rewrite !app_nil_r.
+  change (L "@timeStamps " ++ L "false") with (L "@timeStamps false").
+  change (L "@univariate " ++ L "true") with (L "@univariate true").
+  cbn [run]. rewrite step_problemname by (try exact Hname; reflexivity).
+  rewrite step_timestamps_false by reflexivity. rewrite step_univariate_true by reflexivity.
+  set (s3 := set_uv (set_ts false (set_pn init_state))).
+  assert (Hs3 : data_started s3 = false) by reflexivity.
+  (* optional @equalLength / @seriesLength lines leave the state unchanged *)
+  assert (Hopt : forall rest,
+    run ts_step s3
+      ((if o_equal_length o then [L "@equalLength " ++ py_bool (o_equal_length o)] else []) ++
+       (if 0 <? o_series_length o then [L "@seriesLength " ++ dec (o_series_length o)] else []) ++ rest)
+    = run ts_step s3 rest).
+  { intro rest. destruct (o_equal_length o); destruct (0 <? o_series_length o); cbn [app run py_bool].
+    - change (L "@equalLength " ++ L "true") with (L "@equalLength true").
+      rewrite step_equallength_true by exact Hs3. rewrite step_serieslength by exact Hs3. reflexivity.
+    - change (L "@equalLength " ++ L "true") with (L "@equalLength true").
+      rewrite step_equallength_true by exact Hs3. reflexivity.
+    - rewrite step_serieslength by exact Hs3. reflexivity.
+    - reflexivity. }
+  rewrite Hopt. clear Hopt.
+  destruct (o_labels o) as [|l0 ls] eqn:El.
+  - cbn [is_nil negb app run]. rewrite step_classlabel_false by exact Hs3.
+    rewrite step_data by reflexivity. eexists. reflexivity.
+  - cbn [is_nil negb app run].
+    destruct (step_classlabel_true s3 (l0 :: ls)) as [cll Hcl]; [congruence|exact Hlabs|exact Hs3|].
+    rewrite Hcl. rewrite step_data by reflexivity. exists cll. reflexivity.
+Qed.
+
+Lemma header_nonnil o : render_header o writer_header <> [].
+Proof. unfold render_header, writer_header. cbn [flat_map fst guard_holds app]. congruence. Qed.
+
+(* ------------------------------------------------------------------ the round trip *)
+
+Definition vals_ok (o : wopts) (panel : list series) (vals : list str) : Prop :=
+  (o_labels o = [] /\ vals = []) \/
+  (o_labels o <> [] /\ List.length vals = List.length panel /\ Forall lab_ok vals).
+
+Lemma ts_finish_dstate cl cll rows cvs :
+  ts_finish (dstate cl cll (Some 1) rows cvs) = Ok (rev rows, if cl then Some (rev cvs) else None).
+Proof. destruct cl; reflexivity. Qed.
+
+Theorem ts_roundtrip o panel vals :
+  opts_ok o -> panel <> [] -> Forall row_ok panel -> vals_ok o panel vals ->
+  exists lines, write_ts o panel vals = Ok lines /\
+    parse_ts lines = Ok (map row1 panel,
+                         if is_nil (o_labels o) then None else Some (map lower vals)).
+Proof.
+  intros Ho Hne Hp Hv. pose proof Ho as (_ & _ & Huv & _ & Hel & Hc).
+  eexists. split.
+  - unfold write_ts.
+    assert (G1 : negb (len panel =? len vals) && (0 <? len vals) = false).
+    { destruct Hv as [[_ ->] | (_ & Hl & _)]; [apply andb_false_r|].
+      unfold len. rewrite Hl, Z.eqb_refl. reflexivity. }
+    assert (G2 : o_equal_length o && (o_series_length o =? -1) = false).
+    { destruct (o_equal_length o); [|reflexivity]. specialize (Hel eq_refl). cbn [andb]. lia. }
+    rewrite G1, G2. reflexivity.
+  - unfold parse_ts.
+    destruct (comment_lines (o_comment o) ++ render_header o writer_header ++
+              data_lines (o_univariate o) panel vals) as [|l0 lr] eqn:E.
+    { apply app_eq_nil in E. destruct E as [_ E]. apply app_eq_nil in E. destruct E as [E _].
+      exfalso. exact (header_nonnil o E). }
+    rewrite <- E. clear E l0 lr.
+    rewrite run_app, run_comment by (try exact Hc; reflexivity).
+    rewrite run_app. destruct (header_run o Ho) as [cll ->]. rewrite Huv.
+    destruct Hv as [[Hl ->] | (Hl & Hlen & Hvs)].
+    + rewrite Hl. cbn [is_nil negb]. rewrite run_data_unlabelled by (try exact Hp; left; reflexivity).
+      destruct panel as [|r p]; [congruence|]. rewrite ts_finish_dstate.
+      rewrite app_nil_r, rev_involutive. reflexivity.
+    + destruct (o_labels o) as [|l0 ls]; [congruence|]. cbn [is_nil negb].
+      rewrite run_data_labelled by (try assumption; left; reflexivity).
+      destruct panel as [|r p]; [congruence|]. rewrite ts_finish_dstate.
+      rewrite !app_nil_r, !rev_involutive. reflexivity.
+Qed.
+
+(* what the round trip preserves, in the words of the property *)
+Corollary ts_roundtrip_shape o panel vals lines rows labs :
+  opts_ok o -> panel <> [] -> Forall row_ok panel -> vals_ok o panel vals ->
+  write_ts o panel vals = Ok lines -> parse_ts lines = Ok (rows, labs) ->
+  List.length rows = List.length panel /\
+  (forall i : nat, (i < List.length panel)%nat ->
+     exists s, nth i rows [] = [s] /\ List.length s = List.length (nth i panel []) /\
+       forall j : nat, nth j s [] = match nth_error (nth i panel []) j with
+                                    | Some t => fnorm t | None => [] end) /\
+  (o_labels o = [] -> labs = None) /\
+  (o_labels o <> [] -> labs = Some (map lower vals) /\ List.length vals = List.length panel).
+Proof.
+  intros Ho Hne Hp Hv Hw Hr.
+  destruct (ts_roundtrip o panel vals Ho Hne Hp Hv) as (lines' & Hw' & Hr').
+  rewrite Hw in Hw'. inversion Hw'; subst lines'. rewrite Hr in Hr'. inversion Hr'; subst rows labs.
+  split; [apply map_length|]. split; [|split].
+  - intros i Hi. exists (map fnorm (nth i panel [])). split; [|split].
+    + rewrite (nth_indep _ [] (row1 [])) by (rewrite map_length; exact Hi).
+      rewrite map_nth. reflexivity.
+    + apply map_length.
+    + intro j. generalize (nth i panel []). intro l. revert j.
+      induction l as [|a t IH]; intros [|j]; cbn; auto.
+  - intros ->. reflexivity.
+  - intro Hl. destruct Hv as [[Hl' _]|(_ & Hlen & _)]; [congruence|]. split; [|exact Hlen].
+    destruct (o_labels o); [congruence|reflexivity].
+Qed.
+
+(* the writer refuses exactly the two documented misuses *)
+Lemma write_ts_rejects_iff o panel vals :
+  write_ts o panel vals = Err <->
+  (List.length panel <> List.length vals /\ vals <> []) \/
+  (o_equal_length o = true /\ o_series_length o = -1).
+Proof.
+  unfold write_ts, len.
+  destruct (negb (Z.of_nat (List.length panel) =? Z.of_nat (List.length vals)) &&
+            (0 <? Z.of_nat (List.length vals))) eqn:E1.
+  - split; [|reflexivity]. intros _. left. destruct vals; [cbn in E1; lia|]. split; [lia|congruence].
+  - destruct (o_equal_length o && (o_series_length o =? -1)) eqn:E2.
+    + split; [|reflexivity]. intros _. right. destruct (o_equal_length o); [split; [reflexivity|lia]|discriminate].
+    + split; [discriminate|]. intros [[H1 H2]|[H1 H2]].
+      * destruct vals; [congruence|]. cbn [List.length] in *. lia.
+      * rewrite H1, H2 in E2. discriminate.
+Qed.
+
+(* ------------------------------------------------------------------ what the parser normalises *)
+
+(* the parser sees every line only through strip().lower(): tags, class values and value tokens are
+   matched case-insensitively and surrounding white space is irrelevant *)
+Lemma ts_step_norm s a b : lower (strip a) = lower (strip b) -> ts_step s a = ts_step s b.
+Proof. intro H. unfold ts_step. rewrite H. reflexivity. Qed.
+
+Lemma run_ts_norm : forall l1 l2 s,
+  map (fun l => lower (strip l)) l1 = map (fun l => lower (strip l)) l2 ->
+  run ts_step s l1 = run ts_step s l2.
+Proof.
+  induction l1 as [|a t IH]; intros [|b t2] s H; try discriminate; [reflexivity|].
+  cbn [map] in H. inversion H as [[Hab Ht]]. cbn [run]. rewrite (ts_step_norm s a b Hab).
+  destruct (ts_step s b); [apply IH; exact Ht|reflexivity].
+Qed.
+
+Theorem parse_ts_case_and_space_insensitive l1 l2 :
+  map (fun l => lower (strip l)) l1 = map (fun l => lower (strip l)) l2 -> parse_ts l1 = parse_ts l2.
+Proof.
+  intro H. unfold parse_ts. rewrite (run_ts_norm l1 l2 init_state H).
+  destruct l1, l2; try discriminate; reflexivity.
+Qed.
+
+(* blank lines are valid anywhere *)
+Lemma run_ts_skip_blank : forall lines s,
+  run ts_step s (filter (fun l => negb (blank l)) lines) = run ts_step s lines.
+Proof.
+  induction lines as [|l t IH]; intro s; [reflexivity|]. cbn [filter run].
+  destruct (blank l) eqn:E; cbn [negb].
+  - rewrite ts_step_blank by exact E. apply IH.
+  - cbn [run]. destruct (ts_step s l); [apply IH|reflexivity].
+Qed.
+Theorem parse_ts_ignores_blank_lines lines :
+  parse_ts (filter (fun l => negb (blank l)) lines) = parse_ts lines.
+Proof.
+  unfold parse_ts. rewrite run_ts_skip_blank.
+  destruct (filter (fun l => negb (blank l)) lines) eqn:E; destruct lines as [|l0 lr] eqn:El;
+    try reflexivity; try discriminate.
+  (* a file of blank lines only: no metadata, no data -> rejected either way *)
+  rewrite <- El. rewrite <- run_ts_skip_blank. rewrite El, E. reflexivity.
+Qed.
+
+(* ------------------------------------------------------------------ labels match instances *)
+
+Definition inv (s : pstate) : Prop :=
+  (class_labels s = Some true -> List.length (rows_rev s) = List.length (class_vals_rev s)) /\
+  (data_started s = false -> rows_rev s = [] /\ class_vals_rev s = []).
+
+Lemma case_core_lab cl nd line n r lab : case_core cl nd line = Ok (n, r, lab) ->
+  (cl = true /\ exists l, lab = Some l) \/ (cl = false /\ lab = None).
+Proof.
+  unfold case_core.
+  destruct (negb (len (split_on ch_colon line) - (if cl then 1 else 0) =?
+                  match nd with Some n0 => n0 | None => len (split_on ch_colon line) - (if cl then 1 else 0) end));
+    [discriminate|].
+  destruct (parse_dims _); [|discriminate]. intro H. inversion H; subst.
+  destruct cl; [left; split; [reflexivity|eexists; reflexivity]|right; split; reflexivity].
+Qed.
+
+Ltac brk := match goal with
+  | |- context [match ?x with _ => _ end] => destruct x eqn:?
+  end.
+
+Lemma ts_step_inv s raw s' : ts_step s raw = Ok s' -> inv s -> inv s'.
+Proof.
+  unfold ts_step, data_line. intros H [I1 I2].
+  repeat brk; try discriminate; inversion H; subst; clear H; try (split; assumption);
+    unfold inv; cbn [set_pn set_ts set_uv set_cl set_data add_row class_labels rows_rev class_vals_rev
+                     data_started]; try (split; assumption).
+  all: try (split; [intros _; destruct (I2 eq_refl) as [-> ->]; reflexivity|exact I2]).
+  all: try (split; [exact I1|intro; discriminate]).
+  all: try match goal with
+    | Hc : case_core _ _ _ = Ok _ |- _ => apply case_core_lab in Hc
+    end.
+  all: try (split; [|intro; congruence]).
+  all: try (intro Ht; match goal with
+    | Hc : _ \/ _ |- _ => destruct Hc as [[-> [? ?]]|[-> ?]]; try congruence
+    end).
+  all: try (cbn [List.length]; f_equal; apply I1; congruence).
 Qed.
